@@ -19,3 +19,167 @@ Qed.
 (* the current source persists the wiring of every layer class and connection scheme (observed by introspection) *)
 Lemma wiring_persisted : forallb snd persisted_wiring = true /\ length persisted_wiring = 6.
 Proof. split; vm_compute; reflexivity. Qed.
+
+(* ================= the persistence code as written (Model/Persist.v, second part) ================= *)
+From Coq Require Import ZArith Arith Lia.
+From TLX Require Import Model.CLang.
+
+Lemma list_eqb_nat_eq : forall a b : list nat, list_eqb Nat.eqb a b = true -> a = b.
+Proof.
+  induction a as [|x a IH]; intros [|y b] H; cbn [list_eqb] in H; try discriminate; [reflexivity|].
+  apply andb_prop in H as [H1 H2]. apply Nat.eqb_eq in H1. subst y. f_equal. exact (IH _ H2).
+Qed.
+
+Lemma list_eqb_nat_refl : forall a : list nat, list_eqb Nat.eqb a a = true.
+Proof. induction a as [|x a IH]; cbn [list_eqb]; [reflexivity|]. rewrite Nat.eqb_refl, IH. reflexivity. Qed.
+
+Lemma geom_eqb_eq : forall a b, geom_eqb a b = true -> a = b.
+Proof.
+  intros [i1 c1 k1 d1 s1 p1 r1] [i2 c2 k2 d2 s2 p2 r2] H. unfold geom_eqb in H. cbn [g_in g_channels g_kernels g_depth g_stride g_padding g_rf] in H.
+  repeat (apply andb_prop in H as [H ?]).
+  apply list_eqb_nat_eq in H.
+  repeat match goal with E : (_ =? _) = true |- _ => apply Nat.eqb_eq in E end. subst.
+  assert (r1 = r2).
+  { destruct r1 as [x|x], r2 as [y|y]; cbn [rf_eqb] in *; try discriminate.
+    - match goal with E : (x =? y) = true |- _ => apply Nat.eqb_eq in E; subst; reflexivity end.
+    - match goal with E : list_eqb Nat.eqb x y = true |- _ => apply list_eqb_nat_eq in E; subst; reflexivity end. }
+  subst. reflexivity.
+Qed.
+
+(* ---- LogicDense ---- *)
+Theorem dense_state_roundtrip : forall fresh l,
+  dense_wf l = true -> dl_in fresh = dl_in l -> dl_out fresh = dl_out l ->
+  dense_load fresh (dense_save l) = Some l.
+Proof.
+  intros fresh [n m g a b] Hwf Hin Hout. unfold dense_wf in Hwf. cbn [dl_in dl_out dl_gates dl_a dl_b] in *.
+  repeat (apply andb_prop in Hwf as [Hwf ?]).
+  unfold dense_load, dense_save, dense_extra_fits. cbn [sv_gates sv_extra dl_in dl_out dl_gates dl_a dl_b length forallb nth].
+  rewrite Hin, Hout. rewrite Hwf. cbn [negb]. rewrite Nat.eqb_refl.
+  repeat match goal with E : _ = true |- _ => rewrite E end. cbn [andb]. reflexivity.
+Qed.
+
+Theorem dense_load_sound : forall fresh sv l',
+  dense_wf fresh = true -> dense_load fresh sv = Some l' ->
+  dense_wf l' = true /\ dl_in l' = dl_in fresh /\ dl_out l' = dl_out fresh /\ dl_gates l' = sv_gates sv.
+Proof.
+  intros fresh sv l' Hwf H. unfold dense_load in H.
+  destruct (length (sv_gates sv) =? dl_out fresh) eqn:Eg; cbn [negb] in H; [|discriminate].
+  unfold dense_wf in Hwf. repeat (apply andb_prop in Hwf as [Hwf ?]).
+  destruct (sv_extra sv) as [idx|].
+  - destruct (dense_extra_fits fresh idx) eqn:Ef; [|discriminate]. injection H as <-.
+    unfold dense_wf. cbn [dl_in dl_out dl_gates dl_a dl_b]. rewrite Eg.
+    unfold dense_extra_fits in Ef. apply andb_prop in Ef as [E2 Eall].
+    destruct idx as [|a [|b [|c r]]]; cbn [length] in E2; try discriminate.
+    cbn [forallb] in Eall. apply andb_prop in Eall as [Ea Eb]. apply andb_prop in Eb as [Eb _].
+    apply andb_prop in Ea as [Ea1 Ea2]. apply andb_prop in Eb as [Eb1 Eb2]. cbn [nth].
+    rewrite Ea1, Ea2, Eb1, Eb2. repeat split; reflexivity.
+  - injection H as <-. unfold dense_wf. cbn [dl_in dl_out dl_gates dl_a dl_b]. rewrite Eg.
+    repeat match goal with E : _ = true |- _ => rewrite E end. repeat split; reflexivity.
+Qed.
+
+Theorem dense_load_installs : forall fresh sv l' a b,
+  dense_load fresh sv = Some l' -> sv_extra sv = Some [a; b] -> dl_a l' = a /\ dl_b l' = b.
+Proof.
+  intros fresh sv l' a b H He. unfold dense_load in H. rewrite He in H.
+  destruct (negb _); [discriminate|]. destruct (dense_extra_fits fresh [a; b]); [|discriminate]. injection H as <-. split; reflexivity.
+Qed.
+
+Theorem dense_roundtrip_eval : forall fresh l x,
+  dense_wf l = true -> dl_in fresh = dl_in l -> dl_out fresh = dl_out l ->
+  option_map (fun l' => dense_eval l' x) (dense_load fresh (dense_save l)) = Some (dense_eval l x).
+Proof. intros. rewrite dense_state_roundtrip by assumption. reflexivity. Qed.
+
+(* a checkpoint whose wiring does not fit is refused: a wire beyond the receiving layer's inputs, a negative wire, another
+   number of neurons *)
+Lemma dense_load_rejects :
+  let fresh := {| dl_in := 4; dl_out := 2; dl_gates := [3; 3]; dl_a := [0; 1]%Z; dl_b := [2; 3]%Z |} in
+  dense_load fresh {| sv_gates := [1; 2]; sv_extra := Some [[0; 9]; [1; 2]]%Z |} = None
+  /\ dense_load fresh {| sv_gates := [1; 2]; sv_extra := Some [[0; -1]; [1; 2]]%Z |} = None
+  /\ dense_load fresh {| sv_gates := [1; 2; 3]; sv_extra := Some [[0; 1; 2]; [1; 2; 3]]%Z |} = None
+  /\ dense_load fresh {| sv_gates := [1; 2]; sv_extra := Some [[0; 1]]%Z |} = None
+  /\ dense_load fresh {| sv_gates := [1; 2]; sv_extra := None |} = Some {| dl_in := 4; dl_out := 2; dl_gates := [1; 2]; dl_a := [0; 1]%Z; dl_b := [2; 3]%Z |}.
+Proof. repeat split; vm_compute; reflexivity. Qed.
+
+(* ---- convolutions ---- *)
+Lemma forallb2_and : forall {A B} (f g : A -> B -> bool) l1 l2,
+  forallb2 f l1 l2 = true -> forallb2 g l1 l2 = true -> forallb2 (fun x y => f x y && g x y) l1 l2 = true.
+Proof.
+  intros A B f g l1; induction l1 as [|x r IH]; intros [|y s] Hf Hg; cbn [forallb2] in *; try discriminate; [reflexivity|].
+  apply andb_prop in Hf as [Hf1 Hf2]. apply andb_prop in Hg as [Hg1 Hg2]. rewrite Hf1, Hg1, (IH _ Hf2 Hg2). reflexivity.
+Qed.
+
+Lemma forallb2_self_to : forall {A} (f : A -> A -> bool) (g h : A -> A -> bool) l1 l2,
+  (forall x y, f x x = true -> g x y = true -> h x y = true) ->
+  forallb2 f l1 l1 = true -> forallb2 g l1 l2 = true -> forallb2 h l1 l2 = true.
+Proof.
+  intros A f g h l1; induction l1 as [|x r IH]; intros [|y s] Hfg Hf Hg; cbn [forallb2] in *; try discriminate; [reflexivity|].
+  apply andb_prop in Hf as [Hf1 Hf2]. apply andb_prop in Hg as [Hg1 Hg2]. rewrite (Hfg _ _ Hf1 Hg1), (IH _ Hfg Hf2 Hg2). reflexivity.
+Qed.
+
+Theorem conv_state_roundtrip : forall rc fresh l,
+  geom_eqb (c_geom l) (c_geom fresh) = true -> gates_shape_eqb (c_gates l) (c_gates fresh) = true ->
+  length (c_pairs l) = length (c_pairs fresh) -> forallb2 tens_shape_eqb (c_pairs l) (c_pairs fresh) = true ->
+  index_shapes_eqb (c_indices l) (c_indices fresh) = true ->
+  conv_pairs_wf l = true ->
+  conv_load rc fresh (conv_save l) = Some l.
+Proof.
+  intros rc fresh [g gt pr ix] Hg Hgs Hlen Hps His Hwf. cbn [c_geom c_gates c_pairs c_indices] in *.
+  pose proof (geom_eqb_eq _ _ Hg) as Heq.
+  unfold conv_load, conv_save. cbn [cs_gates cs_extra c_geom c_gates c_pairs c_indices]. rewrite Hgs. cbn [negb].
+  assert (Hfit : pairs_fit fresh pr = true).
+  { unfold pairs_fit. rewrite Hlen, Nat.eqb_refl. cbn [andb]. rewrite <- Heq.
+    unfold conv_pairs_wf, pairs_fit in Hwf. cbn [c_pairs c_geom] in Hwf. apply andb_prop in Hwf as [_ Hwf].
+    eapply forallb2_self_to; [|exact Hwf|exact Hps].
+    intros x y Hx Hxy. unfold pair_fits in *. repeat (apply andb_prop in Hx as [Hx ?]). rewrite Hxy.
+    repeat match goal with E : _ = true |- _ => rewrite E end. reflexivity. }
+  rewrite Hfit. cbn [negb]. rewrite Hg. cbn [negb]. rewrite His. cbn [negb]. rewrite <- Heq. reflexivity.
+Qed.
+
+Theorem conv_load_sound : forall rc fresh sv l',
+  conv_load rc fresh sv = Some l' ->
+  c_geom l' = c_geom fresh /\ gates_shape_eqb (c_gates l') (c_gates fresh) = true /\ c_gates l' = cs_gates sv /\
+  match cs_extra sv with
+  | None => c_pairs l' = c_pairs fresh /\ c_indices l' = c_indices fresh
+  | Some (og, pairs, idx) =>
+      c_pairs l' = pairs /\ pairs_fit fresh pairs = true /\
+      match og with
+      | Some g => g = c_geom fresh /\ c_indices l' = idx /\ index_shapes_eqb idx (c_indices fresh) = true
+      | None => c_indices l' = rc (c_geom fresh) pairs
+      end
+  end.
+Proof.
+  intros rc fresh sv l' H. unfold conv_load in H.
+  destruct (gates_shape_eqb (cs_gates sv) (c_gates fresh)) eqn:Eg; cbn [negb] in H; [|discriminate].
+  destruct (cs_extra sv) as [[[og pairs] idx]|].
+  - destruct (pairs_fit fresh pairs) eqn:Ef; cbn [negb] in H; [|discriminate].
+    destruct og as [g|].
+    + destruct (geom_eqb g (c_geom fresh)) eqn:Egeo; cbn [negb] in H; [|discriminate].
+      destruct (index_shapes_eqb idx (c_indices fresh)) eqn:Ei; cbn [negb] in H; [|discriminate].
+      injection H as <-. cbn [c_geom c_gates c_pairs c_indices]. repeat split; try assumption. exact (geom_eqb_eq _ _ Egeo).
+    + injection H as <-. cbn [c_geom c_gates c_pairs c_indices]. repeat split; assumption.
+  - injection H as <-. cbn [c_geom c_gates c_pairs c_indices]. repeat split; assumption.
+Qed.
+
+(* a checkpoint written by a layer of another geometry is refused *)
+Theorem conv_load_rejects_geometry : forall rc fresh sv g pairs idx,
+  cs_extra sv = Some (Some g, pairs, idx) -> geom_eqb g (c_geom fresh) = false -> conv_load rc fresh sv = None.
+Proof.
+  intros rc fresh sv g pairs idx He Hg. unfold conv_load. rewrite He, Hg.
+  destruct (negb (gates_shape_eqb _ _)); [reflexivity|]. destruct (negb (pairs_fit fresh pairs)); reflexivity.
+Qed.
+(* ... and so is one whose kernel pairs leave the receiving layer's receptive field or channels *)
+Theorem conv_load_rejects_pairs : forall rc fresh sv og pairs idx,
+  cs_extra sv = Some (og, pairs, idx) -> pairs_fit fresh pairs = false -> conv_load rc fresh sv = None.
+Proof.
+  intros rc fresh sv og pairs idx He Hp. unfold conv_load. rewrite He, Hp.
+  destruct (negb (gates_shape_eqb _ _)); reflexivity.
+Qed.
+
+(* ---- thermometer ---- *)
+Theorem thermo_state_roundtrip : forall fresh t, length (th_raw fresh) = length (th_raw t) -> thermo_load fresh (thermo_save t) = Some t.
+Proof. intros fresh [r f] H. unfold thermo_load, thermo_save. cbn [ts_raw ts_extra th_raw th_frozen] in *. rewrite H, Nat.eqb_refl. reflexivity. Qed.
+(* without the flag in the saved state a frozen layer comes back unfrozen (F39) *)
+Lemma thermo_needs_flag :
+  thermo_load {| th_raw := [0; 0]%Z; th_frozen := false |} {| ts_raw := [1; 1]%Z; ts_extra := None |}
+  = Some {| th_raw := [1; 1]%Z; th_frozen := false |}.
+Proof. reflexivity. Qed.
